@@ -33,6 +33,7 @@ class FsScenario(Scenario):
     assumptions = ASSUME
     budget = {"quick": 30, "thorough": 600, "minimise": 90}
     names = ("a", "b", "c")
+    name_universes = [("a", "b", "c"), ("a", "b", "c"), ("a", "ab", "b")]
     weights = None
     allow_ops = None
     paced_share = 0.0  # share of runs that drain after every operation
@@ -74,7 +75,12 @@ class FsScenario(Scenario):
         cfg = random.Random(f"{seed}:cfg")
         frng = random.Random(f"{seed}:fault")
         m = fm.Model()
-        pre = fm.gen_ops(rng, m, rng.randrange(0, 5), names=self.names, paced=False, allow={"mkdir", "mkfile", "makedirs"})
+        if self.name_universes:
+            # swarm: some runs use a universe in which one name is a strict prefix of another (sibling "a" / "ab")
+            self_names = cfg.choice(self.name_universes)
+        else:
+            self_names = self.names
+        pre = fm.gen_ops(rng, m, rng.randrange(0, 5), names=self_names, paced=False, allow={"mkdir", "mkfile", "makedirs"})
         m.drain()
         n = rng.randrange(1, 4) if rng.random() < 0.3 else rng.randrange(3, self.max_ops + 1)
         if cfg.random() < 0.03:
@@ -86,7 +92,7 @@ class FsScenario(Scenario):
             w.pop("drain", None)
         else:
             w["drain"] = cfg.choice([0, 1, 3, 6])
-        ops = fm.gen_ops(rng, m, n, names=self.names, weights=w, paced=not unpaced, drain_each=paced, allow=self.allow_ops)
+        ops = fm.gen_ops(rng, m, n, names=self_names, weights=w, paced=not unpaced, drain_each=paced, allow=self.allow_ops)
         faults = {}
         if frng.random() < 0.5:
             faults["short_read"] = [frng.choice([32, 48, 64, 96, 300, 0]) for _ in range(frng.randrange(1, 5))]
@@ -485,6 +491,7 @@ class C14(FsScenario):
                   "every directory check the re-keyed watch map. The two generator functions alone are pure and not separately decided.")
     level_note = "function-level exhaustive enumeration over trees is outside this technique (pure function); only trees reached through the pipeline are judged"
     names = ("root", "a", "b")
+    name_universes = None
     paced_share = 1.0
     full_share = 0.1
     nonrec_share = 0.0
@@ -503,13 +510,14 @@ class C14(FsScenario):
         try:
             rng = random.Random(f"{seed}:ops")
             case = super().gen_case(seed, tier, idx)
+            names = random.Random(f"{seed}:names").choice([("root", "a", "b"), ("root", "a", "b"), ("root", "a", "ab"), ("a", "ab", "abc")])
             # deeper pre-existing trees so that renames have colliding descendants
             m = fm.Model()
-            pre = fm.gen_ops(random.Random(f"{seed}:pre"), m, rng.randrange(2, 8), names=self.names, max_depth=4, paced=False, allow={"mkdir", "mkfile", "makedirs"})
+            pre = fm.gen_ops(random.Random(f"{seed}:pre"), m, rng.randrange(2, 8), names=names, max_depth=4, paced=False, allow={"mkdir", "mkfile", "makedirs"})
             m.drain()
             case["pre"] = pre
             w = dict(self.weights)
-            case["ops"] = fm.gen_ops(rng, m, rng.randrange(1, self.max_ops), names=self.names, max_depth=4, weights=w, paced=True, drain_each=True)
+            case["ops"] = fm.gen_ops(rng, m, rng.randrange(1, self.max_ops), names=names, max_depth=4, weights=w, paced=True, drain_each=True)
             case["paced"] = True
             return case
         finally:
@@ -554,13 +562,14 @@ C19_NAMES = ("a", "é", "\udcff\udcfe", "b c")
 class C19(FsScenario):
     prop = "C19"
     design_ref = "DESIGN.md 4/C19"
-    rule = ("path configurations drawn per run: root as str / bytes / pathlib.Path x absolute / relative / trailing slash; names from {a, e-acute, the two bytes FF FE (invalid UTF-8), 'b c'}; "
+    rule = ("path configurations drawn per run: root as str / bytes / pathlib.Path x absolute / relative / trailing slash / './root' / embedded '/./' / doubled '//'; names from {a, e-acute, the two bytes FF FE (invalid UTF-8), 'b c'}; "
             "operation histories of C03; backend = inotify observer (FS-world) or polling observer on the real scratch tree under the virtual clock; distinct = distinct (history, configuration, "
             "interleaving) digests; non-trivial = non-ASCII or undecodable name occurred in a delivered path, or a pre-emption was taken")
     level_text = ("Invariant over threaded runs of both observers: every non-empty src/dest path of every delivered event has the type of the scheduled path (bytes iff bytes) and, encoded with the "
                   "file-system encoding, equals the encoded root joined with the real relative name of an entry the history touched.")
     level_note = "polling backend runs on the real tmpfs with the virtual clock driving its poll timer; tmpfs accepts arbitrary byte names"
     names = C19_NAMES
+    name_universes = None
     with_probes = False
     nonrec_share = 0.2
     budget = {"quick": 30, "thorough": 600, "minimise": 90}
@@ -568,7 +577,7 @@ class C19(FsScenario):
     def gen_watch(self, cfg):
         w = super().gen_watch(cfg)
         w["root_kind"] = cfg.choice(["str", "bytes", "path"])
-        w["spelling"] = cfg.choice(["abs", "rel", "slash"])
+        w["spelling"] = cfg.choice(["abs", "rel", "slash", "reldot", "dot", "dslash"])
         w["backend"] = cfg.choice(["inotify", "inotify", "polling"])
         return w
 
@@ -652,6 +661,10 @@ class C11(FsScenario):
         # (i) paced operations: filtered == unfiltered restricted to F
         for c in run.contracts:
             if not (c["drained"] and c["clean_start"]):
+                continue
+            if c["op"][0] in ("burst", "makedirs"):
+                # a nested burst races each pipeline's own watch installation: which kernel events each of the two
+                # inotify instances sees (in addition to the simulated ones) is schedule-dependent, not comparable
                 continue
             un = _collapse([e["shape"] for e in run.events if e["h"] == 0 and e["opi"] == c["opi"] and e["phase"] == "ops" and passes(e)])
             fi = _collapse([e["shape"] for e in run.events if e["h"] == 1 and e["opi"] == c["opi"] and e["phase"] == "ops"])
